@@ -48,9 +48,9 @@ type peEnv struct {
 	rangeRune rune
 	rangeSize int
 	// symbolic offsets: values that are start+k or i+k (start, i: the loop-carried run start and index)
-	sym      map[ssa.Value]symOff
-	iV       ssa.Value
-	startV   ssa.Value
+	sym    map[ssa.Value]symOff
+	iV     ssa.Value
+	startV ssa.Value
 }
 
 type symOff struct {
